@@ -1246,9 +1246,15 @@ def merge_triple(gen, cls=None, minor=None, plain_eol=False):
         cc = r.random()
         if cc < 0.4:
             rem["cells"][k]["source"] = ""
-        elif cc < 0.8:
+        elif cc < 0.6:
             rem["cells"][k]["source"] = edit_text(rem["cells"][k]["source"], gen, CODE_LINES)
-        if r.random() < 0.3:
+        elif cc < 0.9:
+            # the other side only toggled the final newline of the text this side cleared (or the sides are swapped)
+            src = base["cells"][k]["source"]
+            rem["cells"][k]["source"] = src[:-1] if src.endswith("\n") else src + "\n"
+            if r.random() < 0.5:
+                loc["cells"][k]["source"], rem["cells"][k]["source"] = rem["cells"][k]["source"], loc["cells"][k]["source"]
+        if r.random() < 0.3 and cc < 0.6:
             base["cells"][k]["source"] = ""
     elif cls == "exec_count":
         base_ec = r.choice([1, None, None])      # never-executed in base: the 'clear' action then clears a null value
